@@ -318,55 +318,79 @@ def check_entry(name, D, tab, tier):
             imode = "f32"
         eps = max(EPS[imode], 4.0 * nu / max(S, 1e-300)) if imode == "f32" else EPS[imode]
         res.setdefault("imodes", {})[iname] = imode
-        # rung 1: the step of the measured mode; rung 2 (float64 mode only): coordinates that are not verifiably
-        # smooth at h = 1e-6 (a rounding call makes the function a staircase at that scale; a kink does too) are
-        # re-examined with the float32 step - a kink fails the h-scaling test there as well, a staircase passes.
+        # Step selection.  float64-clean input: h = 1e-6.  Otherwise the step is the member of {1e-4, 1e-3, 2e-2} that
+        # minimises the derived tolerance  rtol(h) * max|autograd| + 64 * eps_eff * S / h  with eps_eff = max(eps of the
+        # output dtype, 4 x measured noise / S): an operation that only passes the *input* or constant coordinates through
+        # float32 is differenced with h = 1e-3, a float32 loss with h = 2e-2.  A small step matters where the input moves
+        # interpolation sample positions: with h = 2e-2 several samples cross cell boundaries inside one stencil and
+        # their kinks can cancel in the smoothness tests.  Non-float64 rungs use a 6-point stencil (+-h/2, +-h, +-2h)
+        # and demand agreement of fd(h/2), fd(h), fd(2h) and h^2-scaling of the second differences on BOTH step pairs.
+        # Rung 2 (float64 mode only): coordinates not verifiably smooth at 1e-6 (a rounding call makes the function
+        # a staircase at that scale) are re-examined with h = 2e-2.
         L0 = float(L)
 
-        def stencils(js, h):
-            out = np.empty((len(js), 4))
+        def stencils(js, h, six):
+            offs = (-2 * h, -h, -h / 2, h / 2, h, 2 * h) if six else (-2 * h, -h, h, 2 * h)
+            out = np.empty((len(js), len(offs)))
             for r, j in enumerate(js):
                 x0 = float(flat[j])
-                out[r] = (at(j, x0 - 2 * h), at(j, x0 - h), at(j, x0 + h), at(j, x0 + 2 * h))
+                out[r] = [at(j, x0 + o) for o in offs]
             return out
 
-        def analyse(sten, h):
-            m2, m1, p1, p2 = sten[:, 0], sten[:, 1], sten[:, 2], sten[:, 3]
-            f1 = (p1 - m1) / (2 * h)  # central difference at h
-            f2 = (p2 - m2) / (4 * h)  # central difference at 2h
-            # kink indicator: second differences of a smooth function scale with h^2, those across a kink with h
-            kink = np.abs((p2 - 2 * L0 + m2) - 4 * (p1 - 2 * L0 + m1)) / (2 * h)
+        def analyse(sten, h, tol_of):
+            """-> (estimate fd(h), verified-smooth mask given a tolerance function h -> tol)"""
+            six = sten.shape[1] == 6
+            m2, m1, p1, p2 = sten[:, 0], sten[:, 1], sten[:, -2], sten[:, -1]
+            f1 = (p1 - m1) / (2 * h)
+            f2 = (p2 - m2) / (4 * h)
+            d1 = p1 - 2 * L0 + m1
+            d2 = p2 - 2 * L0 + m2
+            kink = np.abs(d2 - 4 * d1) / (2 * h)  # second differences: ~h^2 if smooth, ~h across a kink
             fin = np.isfinite(f1) & np.isfinite(f2) & np.isfinite(kink)
-            return f1, f2, kink, fin
+            with np.errstate(invalid="ignore"):
+                ok = fin & (np.abs(f1 - f2) <= tol_of(h)) & (kink <= tol_of(h))
+                if six:
+                    mh, ph = sten[:, 2], sten[:, 3]
+                    fh = (ph - mh) / h
+                    dh = ph - 2 * L0 + mh
+                    kh = np.abs(d1 - 4 * dh) / h
+                    ok = ok & np.isfinite(fh) & (np.abs(fh - f1) <= tol_of(h / 2)) & (kh <= tol_of(h / 2))
+            return f1, ok, fin
 
         gfin = gad[np.isfinite(gad)]
         gmax = float(np.max(np.abs(gfin))) if gfin.size else 0.0
-        h, rtol = STEP[imode]
-        st, sten = guarded(stencils, list(range(n)), h)
-        res["evals"] += 4 * n
+        if imode == "f64":
+            h, rtol = STEP["f64"]
+        else:
+            cands = [(1e-4, 1e-4), (1e-3, 1e-3), STEP["f32"]]
+            h, rtol = STEP["f32"] if gmax == 0.0 else min(cands, key=lambda c: c[1] * gmax + C * eps * S / c[0])
+        six = imode != "f64"
+        st, sten = guarded(stencils, list(range(n)), h, six)
+        res["evals"] += (6 if six else 4) * n
         if st == "raises":
             res["problems"].append((f"{name}/D={D}/wrt={iname}/perturbed-forward/{raise_site(sten)}", "evaluation at x +- h: " + exc_text(sten)))
             continue
-        f1, f2, kink, fin = analyse(sten, h)
-        G = max(float(np.max(np.abs(f1[fin]))) if fin.any() else 0.0, gmax)
+        G = gmax
+        for _ in range(2):  # the gradient scale is taken from verified coordinates only
+            tol_of = lambda hh, G=G: rtol * G + C * eps * S / hh  # noqa: E731
+            f1, smooth, fin = analyse(sten, h, tol_of)
+            G = max(float(np.max(np.abs(f1[smooth]))) if smooth.any() else 0.0, gmax)
         tol = rtol * G + C * eps * S / h
-        smooth = fin & (np.abs(f1 - f2) <= tol) & (kink <= tol)
-        G = max(float(np.max(np.abs(f1[smooth]))) if smooth.any() else 0.0, gmax)  # scale from verified coordinates only
-        tol = rtol * G + C * eps * S / h
-        smooth = fin & (np.abs(f1 - f2) <= tol) & (kink <= tol)
         est = np.where(smooth, f1, np.nan)
         tols = np.full(n, tol)
         hs = np.full(n, h)
         retry = [j for j in range(n) if not smooth[j]] if imode == "f64" else []
         if retry:
             h2, rtol2 = STEP["f32"]
-            st, sten2 = guarded(stencils, retry, h2)
-            res["evals"] += 4 * len(retry)
+            st, sten2 = guarded(stencils, retry, h2, True)
+            res["evals"] += 6 * len(retry)
             if st == "ok":
-                g1, g2, k2, fin2 = analyse(sten2, h2)
-                G2 = max(float(np.max(np.abs(g1[fin2]))) if fin2.any() else 0.0, gmax, G)
+                G2 = max(gmax, G)
+                for _ in range(2):
+                    tol2_of = lambda hh, G2=G2: rtol2 * G2 + C * EPS["f32"] * S / hh  # noqa: E731
+                    g1, ok2, fin2 = analyse(sten2, h2, tol2_of)
+                    G2 = max(float(np.max(np.abs(g1[ok2]))) if ok2.any() else 0.0, gmax, G)
                 tol2 = rtol2 * G2 + C * EPS["f32"] * S / h2
-                ok2 = fin2 & (np.abs(g1 - g2) <= tol2) & (k2 <= tol2)
                 for r, j in enumerate(retry):
                     if ok2[r]:
                         est[j], tols[j], hs[j] = g1[r], tol2, h2
@@ -491,6 +515,18 @@ def _transform(kind, D, tier, tab):
         raise KeyError(kind)
     t = t.double()
     _set_params(t, tab, sc)
+    if kind == "SeqAffineDDF":
+        # the affine member moves the points at which the dense member is interpolated: give the dense member a field
+        # that is AFFINE in the cube coordinates, which multilinear interpolation reproduces exactly (no kinks when the
+        # sample positions move); the gradient w.r.t. the dense parameters does not depend on their values anyway
+        ddf = list(t.transforms())[1]
+        gg = ddf.grid()
+        x = gg.coords(dtype=torch.float64)  # (..., X, D)
+        A = 0.1 * gen((D, D), tab, 77) + 0.05 * torch.eye(D, dtype=torch.float64)
+        b_ = 0.05 * gen((D,), tab, 78)
+        field = (x @ A.T + b_).movedim(-1, 0).unsqueeze(0)
+        with torch.no_grad():
+            ddf.params.copy_(field.to(ddf.params.dtype))
     return t
 
 
